@@ -426,6 +426,10 @@ func ServiceHealthEventsFromChanges(tx ReadTxn, changes Changes) ([]stream.Event
 			if e, ok := isConnectProxyDestinationServiceChange(changes.Index, before, after); ok {
 				events = append(events, e)
 			}
+
+			if e, ok := isConnectNativeRemoval(changes.Index, before, after); ok {
+				events = append(events, e)
+			}
 		}
 
 		if _, ok := nodeChanges[tuple.nodeTuple()]; ok {
@@ -535,6 +539,23 @@ func isConnectProxyDestinationServiceChange(idx uint64, before, after *structs.S
 	payload := e.Payload.(EventPayloadCheckServiceNode)
 	payload.overrideKey = payload.Value.Service.Proxy.DestinationServiceName
 	e.Payload = payload
+	return e, true
+}
+
+// isConnectNativeRemoval handles the case where a Connect-native service instance
+// is re-registered without Connect.Native. The instance leaves the result of the
+// Connect health query for its service, but the registration event built for it
+// below is (rightly) not copied to the Connect topic any more, so we need to issue
+// a de-registration on the Connect topic. A rename is already covered by the
+// de-registration of the old name, which is copied to the Connect topic.
+func isConnectNativeRemoval(idx uint64, before, after *structs.ServiceNode) (stream.Event, bool) {
+	if !before.ServiceConnect.Native || after.ServiceConnect.Native ||
+		before.ServiceName != after.ServiceName {
+		return stream.Event{}, false
+	}
+
+	e := newServiceHealthEventDeregister(idx, before)
+	e.Topic = EventTopicServiceHealthConnect
 	return e, true
 }
 
